@@ -78,6 +78,9 @@ FILTER_SHAPES: List[Tuple[str, List[Any], bool, str]] = [
     ("chained-comparison", ONE + ["EQ"] + ONE + ["EQ"] + TWO, False, "?1 == 1 == 2"),
     ("paren-comparand-left", ["LPAREN"] + Q + ["RPAREN", "EQ"] + ONE, False, "?(@.a) == 1"),
     ("paren-comparand-right", Q + ["EQ", "LPAREN"] + ONE + ["RPAREN"], False, "?@.a == (1)"),
+    ("paren-query-comparand-right", Q + ["EQ", "LPAREN"] + Q2 + ["RPAREN"], False, "?@.a == (@.b)"),
+    ("double-paren-comparand-right", ONE + ["LT", "LPAREN", "LPAREN"] + Q + ["RPAREN", "RPAREN"], False, "?1 < ((@.a))"),
+    ("paren-query-comparand-left", ["LPAREN"] + Q + ["RPAREN", "LT"] + Q2, False, "?(@.a) < @.b"),
     ("logical-comparand", ["LPAREN"] + Q + ["AND"] + Q2 + ["RPAREN", "EQ"] + ONE, False, "?(@.a && @.b) == 1"),
     ("double-not", ["NOT", "NOT"] + Q, False, "?!!@.a"),
     ("double-and", Q + ["AND", "AND"] + Q2, False, "?@.a && && @.b"),
@@ -150,6 +153,8 @@ def run_shape(model: Model, entry: str, spec: List[Any]) -> List[Any]:
         env = real_env(it, model)
         register(it, env, "fv1", probe_function(it, model, ["VALUE"], "VALUE", []))
         register(it, env, "fl2", probe_function(it, model, ["VALUE", "VALUE"], "LOGICAL", []))
+        for nm, ret in (("gv", "VALUE"), ("gl", "LOGICAL"), ("gn", "NODES")):
+            register(it, env, nm, probe_function(it, model, [], ret, []))
         parser = env.attrs["parser"]
         q = it.new_str("query")
         if entry == "filter":
@@ -213,3 +218,135 @@ def check_shapes(model: Model, report: Report, rule: str, want_valid: bool) -> N
             else:
                 report.ok(rule, site_q, key, detail={"text": text, "valid": valid, "paths": len(runs)})
     report.touched("parse.Parser.parse_filter_selector", "parse.Parser.parse_bracketed_selection", "parse.Parser.parse", "parse.Parser.parse_filter_expression", "parse.Parser.parse_infix_expression", "parse.Parser.parse_grouped_expression", "parse.Parser.parse_function_extension", "parse.Parser.parse_slice")
+
+
+# ------------------------------------------------------------ expression trees built by the parser
+def qn(name: str) -> Any:
+    return ("q", "relative", name)
+
+
+TREES: Dict[str, Any] = {
+    "test": qn("a"),
+    "not-test": ("not", qn("a")),
+    "paren-test": qn("a"),
+    "not-paren": ("not", qn("a")),
+    "comparison": ("cmp", "==", qn("a"), ("lit", 1)),
+    "paren-comparison": ("cmp", "==", qn("a"), ("lit", 1)),
+    "not-paren-comparison": ("not", ("cmp", "==", qn("a"), ("lit", 1))),
+    "and": ("&&", qn("a"), qn("b")),
+    "or-and": ("||", qn("a"), ("&&", qn("b"), qn("c"))),
+    "paren-or-and": ("&&", ("||", qn("a"), qn("b")), qn("c")),
+    "cmp-and-test": ("&&", ("cmp", "==", qn("a"), ("lit", 1)), qn("b")),
+    "test-and-cmp": ("&&", qn("b"), ("cmp", "==", qn("a"), ("lit", 1))),
+    "literal-cmp-literal": ("cmp", "==", ("lit", 1), ("lit", 2)),
+    "string-cmp": ("cmp", "==", qn("a"), ("lit", "x")),
+    "value-call-cmp": ("cmp", "==", ("call", "fv1", [qn("a")]), ("lit", 1)),
+    "logical-call-test": ("call", "fl2", [qn("a"), ("lit", "x")]),
+    "nested-paren": qn("a"),
+    "not-in-and": ("&&", qn("a"), ("not", qn("b"))),
+}
+# every comparison operator under a negation keeps its operator and its negation (no algebraic folding)
+EXTRA_TREE_SHAPES: List[Tuple[str, List[Any], Any]] = []
+for _tok, _op in (("EQ", "=="), ("NE", "!="), ("LT", "<"), ("LE", "<="), ("GT", ">"), ("GE", ">=")):
+    EXTRA_TREE_SHAPES.append((f"not-paren-{_tok.lower()}", ["NOT", "LPAREN"] + Q + [_tok] + ONE + ["RPAREN"], ("not", ("cmp", _op, qn("a"), ("lit", 1)))))
+    EXTRA_TREE_SHAPES.append((f"plain-{_tok.lower()}", Q + [_tok] + ONE, ("cmp", _op, qn("a"), ("lit", 1))))
+    EXTRA_TREE_SHAPES.append((f"swapped-{_tok.lower()}", ONE + [_tok] + Q, ("cmp", _op, ("lit", 1), qn("a"))))
+LEX.update({"LE": "<=", "GT": ">", "GE": ">="})
+EXTRA_TREE_SHAPES.append(("not-paren-and", ["NOT", "LPAREN"] + Q + ["AND"] + Q2 + ["RPAREN"], ("not", ("&&", qn("a"), qn("b")))))
+EXTRA_TREE_SHAPES.append(("not-paren-or", ["NOT", "LPAREN"] + Q + ["OR"] + Q2 + ["RPAREN"], ("not", ("||", qn("a"), qn("b")))))
+EXTRA_TREE_SHAPES.append(("root-query-test", ["ROOT", ("PROPERTY", "a")], ("q", "root", "a")))
+EXTRA_TREE_SHAPES.append(("and-and", Q + ["AND"] + Q2 + ["AND"] + Q3, ("&&", ("&&", qn("a"), qn("b")), qn("c"))))
+EXTRA_TREE_SHAPES.append(("or-or", Q + ["OR"] + Q2 + ["OR"] + Q3, ("||", ("||", qn("a"), qn("b")), qn("c"))))
+EXTRA_TREE_SHAPES.append(("and-or", Q + ["AND"] + Q2 + ["OR"] + Q3, ("||", ("&&", qn("a"), qn("b")), qn("c"))))
+
+
+def expr_shape(x: Any) -> Any:
+    """Structure of a parsed filter expression (classes, operators, names, literal values)."""
+    if not isinstance(x, Inst):
+        return ("?", repr(x))
+    n = x.cls.name
+    if n == "FilterExpression":
+        return expr_shape(x.attrs.get("expression"))
+    if n in ("RelativeFilterQuery", "RootFilterQuery"):
+        q = x.attrs.get("query")
+        segs = q.attrs.get("segments") if isinstance(q, Inst) else None
+        names = []
+        if isinstance(segs, PyTuple):
+            for sg in segs.items:
+                sels = sg.attrs.get("selectors") if isinstance(sg, Inst) else None
+                if isinstance(sels, PyTuple) and len(sels.items) == 1 and isinstance(sels.items[0], Inst):
+                    nm = sels.items[0].attrs.get("name")
+                    names.append(nm.value if isinstance(nm, Const) else sels.items[0].cls.name)
+                else:
+                    names.append("?")
+        return ("q", "relative" if n == "RelativeFilterQuery" else "root", ".".join(map(str, names)))
+    if n.endswith("Literal"):
+        v = x.attrs.get("value")
+        return ("lit", v.value if isinstance(v, Const) else repr(v))
+    if n == "ComparisonExpression":
+        op = x.attrs.get("operator")
+        return ("cmp", op.value if isinstance(op, Const) else repr(op), expr_shape(x.attrs.get("left")), expr_shape(x.attrs.get("right")))
+    if n == "LogicalExpression":
+        op = x.attrs.get("operator")
+        return (op.value if isinstance(op, Const) else repr(op), expr_shape(x.attrs.get("left")), expr_shape(x.attrs.get("right")))
+    if n == "PrefixExpression":
+        op = x.attrs.get("operator")
+        if isinstance(op, Const) and op.value == "!":
+            return ("not", expr_shape(x.attrs.get("right")))
+        return ("prefix", repr(op), expr_shape(x.attrs.get("right")))
+    if n == "FunctionExtension":
+        nm = x.attrs.get("name")
+        args = x.attrs.get("args")
+        items = args.items if isinstance(args, (PyList, PyTuple)) else []
+        return ("call", nm.value if isinstance(nm, Const) else repr(nm), [expr_shape(a) for a in items])
+    return ("?", n)
+
+
+def check_trees(model: Model, report: Report, rule: str) -> None:
+    """The parser builds exactly the expression tree the grammar describes (no rewriting)."""
+    site_q = "parse.Parser.parse_filter_selector"
+    fi = model.functions.get(site_q)
+    cases: List[Tuple[str, List[Any], Any]] = []
+    for sid, spec, valid, text in FILTER_SHAPES:
+        if valid and sid in TREES:
+            cases.append((sid, spec, TREES[sid]))
+    cases += EXTRA_TREE_SHAPES
+    for sid, spec, want in cases:
+        key = f"tree:{sid}"
+        try:
+            runs = run_shape(model, "filter", spec)
+        except Unsupported as err:
+            report.undecided(rule, site_q, f"{key}: {err}")
+            continue
+        bad = None
+        for run in runs:
+            if run.kind == "raise":
+                continue  # acceptance is C03's business
+            r, _nxt = run.value
+            sel_expr = r.attrs.get("expression") if isinstance(r, Inst) else None
+            got = _assoc_normal(expr_shape(sel_expr))
+            want = _assoc_normal(want)
+            if got != want:
+                bad = f"is parsed into {got!r}, expected {want!r}: the parser must not rewrite the expression (e.g. fold '!' into a comparison: !(a < b) is not a >= b when the operands are unordered)"
+        if bad:
+            report.fail(rule, site_q, key, f"shape '{sid}' {bad}", file=fi.file if fi else "", line=fi.line if fi else 0)
+        else:
+            report.ok(rule, site_q, key)
+
+
+def _assoc_normal(t: Any) -> Any:
+    """&& and || are associative: compare as n-ary operators."""
+    if isinstance(t, tuple) and t and t[0] in ("&&", "||"):
+        items: List[Any] = []
+        for x in t[1:]:
+            nx = _assoc_normal(x)
+            if isinstance(nx, tuple) and nx and nx[0] == t[0]:
+                items.extend(nx[1:])
+            else:
+                items.append(nx)
+        return (t[0],) + tuple(items)
+    if isinstance(t, tuple):
+        return tuple(_assoc_normal(x) if isinstance(x, (tuple, list)) else x for x in t)
+    if isinstance(t, list):
+        return [_assoc_normal(x) for x in t]
+    return t
